@@ -348,20 +348,20 @@ def runModelCell (c : GCase) : CellOut := Id.run do
   let mut tr : Trace := {}
   match renumber c.edges seen with
   | none => pure ()
-  | some ne =>
-    if !c.edges.isEmpty then
-      let adj := staticAdj ne
-      let nn := staticNodes ne
-      let targets := (List.range c.out.length).map (· + c.inc.length)
-      for s in List.range c.inc.length do
-        if s < nn then tr := tr.add (traceRun adj nn s none targets)
+  | some (ne, seenF) =>
+    let adj := staticAdj ne
+    let nn := staticNodes ne
+    match lookupAll seenF c.inc, lookupAll seenF c.out with
+    | some srcs, some tgts =>
+      for s in srcs do
+        if !c.edges.isEmpty && s < nn then tr := tr.add (traceRun adj nn s none tgts)
+    | _, _ => pure ()
   return { model := out, tr := tr }
 
 def judgeCell (c : GCase) (impl : Array String) : Verdict := Id.run do
   if !(strictlySorted c.inc) then return .skip "incoming boundary not strictly sorted (binary_search)"
   if hasDup c.out then return .skip "duplicate ids in the outgoing boundary"
   if totalWeight c.edges ≥ UMAX.toNat then return .skip "path weights may reach usize::MAX (side condition)"
-  let overlap := c.inc.any fun x => c.out.contains x
   let n := maxId c + 1
   let adj := adjFn (adjArrOf n c.edges)
   let umax : Int := UMAX
@@ -370,15 +370,8 @@ def judgeCell (c : GCase) (impl : Array String) : Verdict := Id.run do
   for u in c.inc do
     let some D := oracle adj n u | return .fail "spec oracle did not converge (checker bug)"
     expRows := expRows ++ [(u, c.out.map fun t => match gt D t with | some d => (d : Int) | none => umax)]
-  let tag := if overlap then "[cell-boundary-overlap] " else ""
-  if impl.contains "PANIC" then
-    -- attribute: an incoming node without edges whose renumbered id is beyond the subgraph's node count
-    let seen := c.out.foldl orInsert (c.inc.foldl orInsert [])
-    let isolated := match renumber c.edges seen with
-      | some ne => !c.edges.isEmpty && (List.range c.inc.length).any (· ≥ staticNodes ne)
-      | none => false
-    let t2 := if isolated && !overlap then "[cell-isolated-source-panic] " else tag
-    return .fail s!"{t2}implementation panicked on an in-domain cell"
+  let tag := ""
+  if impl.contains "PANIC" then return .fail "implementation panicked on an in-domain cell"
   if impl.contains "HANG" || impl.contains "ABORT" then return .fail "implementation hung or aborted"
   let expMatrix := expRows.flatMap (·.2)
   let some ml := implLine impl "D matrix" | return .fail "no matrix observation"
